@@ -68,34 +68,47 @@ theorem remaining_tick (c : Cfg) (hd0 : 0 < c.depth) (hp : 0 < c.post) (hb : 0 <
 
 /-! ### the other ops -/
 
-/-- masks are at least as long as the data (otherwise the real component panics with an index error) -/
-def opOk : Op → Prop
-  | .deliver k a l d m => maskOk ⟨0, k, a, l, d, m⟩ = true
+/-- the request does not make the component panic: its mask is at least as long as its data (index error in
+`finalizeWrite` otherwise), the bank address converter, if installed, accepts its address, and the storage accepts its
+footprint (capacity) -/
+def opOk (c : Cfg) : Op → Prop
+  | .deliver k a l d m => maskOk ⟨0, k, a, l, d, m⟩ = true ∧ belongs c ⟨0, k, a, l, d, m⟩ = true ∧
+      capErr c.cap a (Req.size ⟨0, k, a, l, d, m⟩) = false
   | _ => True
 
-instance (op : Op) : Decidable (opOk op) := by
+instance (c : Cfg) (op : Op) : Decidable (opOk c op) := by
   cases op <;> unfold opOk <;> infer_instance
 
 theorem deliver_LI (c : Cfg) (s : State) (kind : Kind) (addr len : Nat) (data : List Nat) (mask : Option (List Bool))
-    (hok : opOk (.deliver kind addr len data mask)) (hl : LI c s) : LI c (deliver c s kind addr len data mask) := by
+    (hok : opOk c (.deliver kind addr len data mask)) (hl : LI c s) : LI c (deliver c s kind addr len data mask) := by
   unfold deliver
   split
-  · refine ⟨hl.nb, hl.len, ?_⟩
-    intro r hr
-    simp only [List.mem_append, List.mem_singleton] at hr
-    rcases hr with hr | rfl
-    · exact hl.ok r hr
-    · simpa [opOk, maskOk] using hok
+  · refine ⟨hl.nb, hl.len, ?_, ?_, ?_⟩
+    · intro r hr
+      simp only [List.mem_append, List.mem_singleton] at hr
+      rcases hr with hr | rfl
+      · exact hl.ok r hr
+      · simpa [maskOk] using hok.1
+    · intro r hr
+      simp only [List.mem_append, List.mem_singleton] at hr
+      rcases hr with hr | rfl
+      · exact hl.bel r hr
+      · simpa [belongs] using hok.2.1
+    · intro r hr
+      simp only [List.mem_append, List.mem_singleton] at hr
+      rcases hr with hr | rfl
+      · exact hl.cap r hr
+      · simpa [Req.size] using hok.2.2
   · exact hl
 
-theorem step_LI (c : Cfg) (s : State) (op : Op) (hok : opOk op) (h : Inv c s) (hl : LI c s) : LI c (step c s op) := by
+theorem step_LI (c : Cfg) (s : State) (op : Op) (hok : opOk c op) (h : Inv c s) (hl : LI c s) : LI c (step c s op) := by
   cases op with
   | deliver k a l d m => exact deliver_LI c s k a l d m hok hl
   | tick => exact tick_LI c s h hl
-  | out k => exact ⟨hl.nb, hl.len, hl.ok⟩
+  | out k => exact ⟨hl.nb, hl.len, hl.ok, hl.bel, hl.cap⟩
 
 theorem init_LI (c : Cfg) : LI c (init c) := by
-  refine ⟨by simp [init], ?_, by simp [init]⟩
+  refine ⟨by simp [init], ?_, by simp [init], by simp [init], by simp [init]⟩
   intro b hb l hl
   simp only [init] at hb
   have := (List.mem_replicate.1 hb).2
@@ -151,14 +164,14 @@ theorem step_arrived_mono (c : Cfg) (s : State) (op : Op) (r : Req) (hr : r ∈ 
 /-- **the measure decreases**: along any op sequence (new arrivals, blocked ticks, partial drains in any order)
 `remaining` never grows and drops by at least one in every accepting tick -/
 theorem remaining_fold (c : Cfg) (hd0 : 0 < c.depth) (hp : 0 < c.post) (hb : 0 < c.banks) (r : Req) :
-    ∀ (ops : List Op) (s : State), Inv c s → LI c s → (∀ op ∈ ops, opOk op) → r ∈ s.arrived →
+    ∀ (ops : List Op) (s : State), Inv c s → LI c s → (∀ op ∈ ops, opOk c op) → r ∈ s.arrived →
       remaining c (ops.foldl (step c) s) r ≤ remaining c s r - acceptingTicks c (bankOf c r.addr) s ops := by
   intro ops
   induction ops with
   | nil => intro s _ _ _ _; simp [acceptingTicks]
   | cons op ops ih =>
     intro s h hl hok hr
-    have hok' : ∀ op ∈ ops, opOk op := fun o ho => hok o (by simp [ho])
+    have hok' : ∀ op ∈ ops, opOk c op := fun o ho => hok o (by simp [ho])
     have h' := step_inv c s op h
     have hl' := step_LI c s op (hok op (by simp)) h hl
     have hr' := step_arrived_mono c s op r hr
@@ -197,9 +210,9 @@ theorem answered_of_remaining_zero (c : Cfg) (s : State) (h : Inv c s) (r : Req)
     · exact (List.mem_filter.1 hm).1
     · exact absurd hm hn
 
-theorem run_LI (c : Cfg) (ops : List Op) (hok : ∀ op ∈ ops, opOk op) (hw : c.width = 1) : LI c (run c ops) := by
+theorem run_LI (c : Cfg) (ops : List Op) (hok : ∀ op ∈ ops, opOk c op) (hw : c.width = 1) : LI c (run c ops) := by
   unfold run
-  have : ∀ (ops : List Op) (s : State), Inv c s → LI c s → (∀ op ∈ ops, opOk op) →
+  have : ∀ (ops : List Op) (s : State), Inv c s → LI c s → (∀ op ∈ ops, opOk c op) →
       LI c (ops.foldl (step c) s) := by
     intro ops
     induction ops with
